@@ -98,6 +98,23 @@ def special_batches():
     return [json.dumps(b) for b in out]
 
 
+def oversize_malformed():
+    """(text, max_batch_size) pairs: batches that are BOTH longer than the limit and malformed (an entry that is no request, a
+    repeated id), next to well-formed ones of the same length at, under and over the limit."""
+    ok1, ok2, ok3 = (obj('2.0', i, 'one', [i]) for i in (1, 2, 3))
+    bad = [5, 'x', None, [], {'jsonrpc': '2.0'}, {'jsonrpc': '1.0', 'method': 'one', 'id': 9}, {'jsonrpc': '2.0', 'method': 'one', 'params': 5, 'id': 9},
+           {'jsonrpc': '2.0', 'method': 'one', 'id': True}, {'jsonrpc': '2.0', 'method': 5, 'id': 9}]
+    out = []
+    for b in bad:
+        for batch in ([ok1, b], [b, ok1], [ok1, ok2, b], [b, ok1, ok2]):
+            for mb in (1, len(batch) - 1, len(batch)):
+                out.append((json.dumps(batch), mb))
+    for batch in ([ok1, dict(ok2, id=1)], [ok1, ok2, dict(ok3, id=1)], [ok1, ok2], [ok1, ok2, ok3]):
+        for mb in (1, len(batch) - 1, len(batch)):
+            out.append((json.dumps(batch), mb))
+    return sorted(set(out))
+
+
 def nested_texts():
     out = []
     for d in (1, 2, 8, 32, 64):
